@@ -701,7 +701,8 @@ class Collection(object):
             num_matched += 1
             first = True
             subdocument = None
-            for k, v in document.items():
+            # every document gets its own copy of the values the operators carry
+            for k, v in copy.deepcopy(document).items():
                 if k in _updaters:
                     updater = _updaters[k]
                     subdocument = self._update_document_fields_with_positional_awareness(
